@@ -16,6 +16,7 @@ from __future__ import annotations
 
 import ast
 
+from .. import inline
 from ..facts import call_name, norm
 from ..linters import Linters
 from ..util import is_call_named
@@ -23,12 +24,18 @@ from ..util import is_call_named
 IGN = "src.linter_config.ignore"
 # predicate sites that are fine although the function itself does not relativise, each with the reason
 Q2_OK = {
-    "src.linter_config.pattern_utils.matches_pattern": "its only caller, IgnoreDirectiveParser.is_ignored, passes relative_to(project_root) (decided under C14-W4)",
-    "src.linter_config.pattern_utils._matches_directory_pattern": "called from matches_pattern only (see above)",
-    "src.linters.file_placement.directory_matcher.DirectoryMatcher._check_path_match": "operates on PathResolver.get_relative_path (decided under C18-V6)",
-    "src.linters.file_placement.directory_matcher.DirectoryMatcher._check_root_match": "operates on PathResolver.get_relative_path (decided under C18-V6)",
+    # scope prefix (a class or a module: private helpers may be renamed or split) -> why its predicates are fine
+    "src.linter_config.pattern_utils.": "its only entry, matches_pattern, is called by IgnoreDirectiveParser.is_ignored with relative_to(project_root) (decided under C14-W4)",
+    "src.linters.file_placement.directory_matcher.DirectoryMatcher.": "operates on the string PathResolver.get_relative_path produced (decided under C18-V6)",
     "src.linters.magic_numbers.context_analyzer.is_test_file": "tests file_path.name only (location independent)",
 }
+
+
+def _q2_ok(qual: str) -> str | None:
+    for k, why in Q2_OK.items():
+        if qual == k or (k.endswith(".") and qual.startswith(k)):
+            return why
+    return None
 
 
 def _pathlike(e) -> bool:
@@ -91,7 +98,7 @@ def check(run, ctx):
     (run.ok(Q3, "Orchestrator.__init__", "get_ignore_parser(self.project_root)") if c and c[0].args and ast.unparse(c[0].args[0]) == "self.project_root" else run.finding(Q3, "Orchestrator.__init__", "parser-root", "the orchestrator's ignore parser is not rooted at its project_root", oi.loc))
     (run.ok(Q3, "lazy discovery", "rules are constructed after the parser is configured") if not any(is_call_named(n, "discover_rules", "_ensure_rules_discovered") for n in ast.walk(oi.node)) else run.finding(Q3, "Orchestrator.__init__", "eager-discovery", "rules are constructed inside __init__ (possibly before the ignore parser is configured)", oi.loc))
     lf = repo.func("src.orchestrator.core.Orchestrator.lint_file")
-    ok = any(isinstance(n, ast.Dict) and any(isinstance(k, ast.Constant) and k.value == "_project_root" and ast.unparse(v) == "self.project_root" for k, v in zip(n.keys, n.values)) for n in ast.walk(lf.node))
+    ok = any(isinstance(n, ast.Dict) and any(isinstance(k, ast.Constant) and k.value == "_project_root" and ast.unparse(v) == "self.project_root" for k, v in zip(n.keys, n.values)) for n in inline.flat_nodes(repo, lf))   # the context may be built by a private helper
     (run.ok(Q3, "lint_file metadata", "_project_root = self.project_root") if ok else run.finding(Q3, "Orchestrator.lint_file", "metadata-root", "rules are not told the orchestrator's project root", lf.loc))
 
     Q2 = run.rule("Q2", "path predicates over directory components are applied to project-relative paths", floor=15,
@@ -106,8 +113,8 @@ def check(run, ctx):
         n_sites += 1
         sym = f.qual.replace("src.", "", 1)
         rel = any(is_call_named(n, "relative_to") for n in ast.walk(f.node))
-        if f.qual in Q2_OK:
-            run.ok(Q2, sym, f"allowed: {Q2_OK[f.qual]}", nontrivial=False)
+        if _q2_ok(f.qual):
+            run.ok(Q2, sym, f"allowed: {_q2_ok(f.qual)}", nontrivial=False)
         elif rel:
             run.ok(Q2, sym, f"{norm(hits[0])} after relative_to(...)")
         else:
